@@ -204,7 +204,9 @@ func (s *Translator) Enter(expression cypher.SyntaxNode) {
 
 	case *cypher.Parameter:
 		var (
-			cypherIdentifier = pgsql.Identifier(typedExpression.Symbol)
+			// Parameters live in their own namespace: `$n` must never resolve to, or be shadowed by, a variable or
+			// projection alias named `n`. No Cypher symbol can start with '$', so the prefixed key cannot collide.
+			cypherIdentifier = pgsql.Identifier("$" + typedExpression.Symbol)
 			binding, bound   = s.scope.AliasedLookup(cypherIdentifier)
 		)
 
@@ -213,7 +215,7 @@ func (s *Translator) Enter(expression cypher.SyntaxNode) {
 				s.SetError(err)
 			} else {
 				// Alias the old parameter identifier to the synthetic one
-				if cypherIdentifier != "" {
+				if typedExpression.Symbol != "" {
 					s.scope.Alias(cypherIdentifier, parameterBinding)
 				}
 
